@@ -109,6 +109,19 @@ class PlotAdapter(Adapter):
                     ax = h.plot(kind, backend="matplotlib", **kw, **self._ovr(False))
                     obs["ret"] = self._mpl_marks(ax, kind)
                     self.plt.close(ax.figure)
+                    if kind in ("bar", "scatter") and self.overrides == 1 and not cumulative:
+                        # the same marks coloured by value (linear and logarithmic colour scale): colour is decoration, the
+                        # heights stay the histogram's and the histogram stays untouched
+                        for norm in (None, "log"):
+                            nkw = {} if norm is None else {"cmap_normalize": norm}
+                            if norm == "log" and not (np.asarray(h.frequencies) > 0).any():
+                                continue
+                            ax2 = h.plot(kind, backend="matplotlib", cmap="Greys", **nkw, **kw)
+                            m2 = self._mpl_marks(ax2, kind)
+                            self.plt.close(ax2.figure)
+                            key = "bars" if kind == "bar" else "xy"
+                            if key in m2 and key in obs["ret"] and m2[key] != obs["ret"][key]:
+                                obs["coloured_marks_differ"] = {"cmap_normalize": norm, "plain": obs["ret"][key], "coloured": m2[key]}
             elif action == "Plot2D":
                 backend, kind, density, show_zero, cells = args
                 if backend == "plotly":
@@ -130,6 +143,9 @@ class PlotAdapter(Adapter):
                         obs["unsupported"] = True
                         return o, obs
                     try:
+                        if self.overrides == 1:
+                            axl = h.plot("image", backend="matplotlib", density=density, show_colorbar=False, cmap_normalize="log")
+                            self.plt.close(axl.figure)       # a logarithmic colour scale first: only purity is judged on it
                         ax = h.plot("image", backend="matplotlib", density=density, show_colorbar=False)
                     except ValueError as ex:
                         if "irregular" in str(ex):
@@ -288,6 +304,8 @@ class PlotAdapter(Adapter):
                              for e in exp if e[2] > e[1])
                     if not ok:
                         fail("error_bars", exp, segs)
+                if obs.get("coloured_marks_differ"):
+                    fail("coloured_marks", "the marks of the uncoloured plot", obs["coloured_marks_differ"])
                 want_x = f"ax{s['axis']}" if s["axis"] else "axis0"
                 want_t = f"title{s['name']}" if s["name"] else ""
                 if backend == "matplotlib":
